@@ -79,11 +79,13 @@ func Create(filename string, archiveInfoList []ArchiveInfo, aggregationMethod Ag
 
 	fileSize := h.ExpectedFileSize()
 	if err := w.file.Truncate(fileSize); err != nil {
+		w.file.Close()
 		return nil, err
 	}
 	w.fileBuf = filebuffer.New(w.file, fileSize, w.pageSize)
 
 	if err := w.putHeader(); err != nil {
+		w.file.Close()
 		return nil, err
 	}
 	return w, nil
@@ -109,15 +111,18 @@ func Open(filename string, opts ...Option) (*Whisper, error) {
 
 	st, err := w.file.Stat()
 	if err != nil {
+		w.file.Close()
 		return nil, fmt.Errorf("stat: %s: %s", filename, err)
 	}
 
 	w.fileBuf = filebuffer.New(w.file, st.Size(), w.pageSize)
 
 	if err := w.readHeader(st.Size()); err != nil {
+		w.file.Close()
 		return nil, fmt.Errorf("readHeader: %s: %s", filename, err)
 	}
 	if st.Size() < w.header.ExpectedFileSize() {
+		w.file.Close()
 		return nil, fmt.Errorf("file too short: %s: got %d bytes, want %d bytes", filename, st.Size(), w.header.ExpectedFileSize())
 	}
 	return w, nil
